@@ -10,7 +10,7 @@ SHARDS = {"quick": 16, "thorough": 16}
 WATCHDOG = {"quick": 900, "thorough": 7200}
 CASES = {"quick": 200, "thorough": 900}  # per shard
 FLOORS = {
-    "quick": {"distinct_nontrivial": 1700, "rows_checked": 260000, "cases[GaussianCovCost]": 420,
+    "quick": {"regular_batches_with_2+_rows": 4118, "distinct_nontrivial": 1700, "rows_checked": 260000, "cases[GaussianCovCost]": 420,
               "cases[int64 data]": 100, "K5_rows_audited": 17000},
     "thorough": {"distinct_nontrivial": 2000, "rows_checked": 500000},
 }
